@@ -350,6 +350,7 @@ def _backend_agreement(ctx) -> None:
     C07._rs_forward(ctx, mir, sf)
     C07._week(ctx, mir, sf)
     from . import C13
+    C13._interval_assembly(ctx)  # the compiled Duration's fields are handed to pendulum.duration unit for unit
     C13._rust_arith(ctx)        # 'never a value computed from silently wrapped-around numbers'
 
 
